@@ -458,6 +458,116 @@ fn run_one(rig: &Rig, t: Target, e: Entry, script: &[Beh], count: usize) {
     }
 }
 
+/// Forwarding implementations the library MAY provide (`&mut S`, `Box<S>` for a stream `S`, as std
+/// has them for Read / Write): detected at compile time by autoref-based method selection; where
+/// they exist, the scripts run through them and are judged exactly like the direct runs.
+mod forwarding {
+    use super::*;
+    pub struct W<T>(pub std::cell::RefCell<T>);
+    pub trait ProvidedSink {
+        fn drive_sink(&self, rig: &Rig, t: Target, e: Entry, count: usize) -> Option<Outcome>;
+    }
+    impl<T: WriteVolatile> ProvidedSink for W<T> {
+        fn drive_sink(&self, rig: &Rig, t: Target, e: Entry, count: usize) -> Option<Outcome> {
+            Some(rig.write_to(t, e, &mut *self.0.borrow_mut(), count))
+        }
+    }
+    pub trait AbsentSink {
+        fn drive_sink(&self, _rig: &Rig, _t: Target, _e: Entry, _count: usize) -> Option<Outcome> {
+            None
+        }
+    }
+    impl<T> AbsentSink for &W<T> {}
+    pub trait ProvidedSource {
+        fn drive_source(&self, rig: &Rig, t: Target, e: Entry, count: usize) -> Option<Outcome>;
+    }
+    impl<T: ReadVolatile> ProvidedSource for W<T> {
+        fn drive_source(&self, rig: &Rig, t: Target, e: Entry, count: usize) -> Option<Outcome> {
+            Some(rig.read_from(t, e, &mut *self.0.borrow_mut(), count))
+        }
+    }
+    pub trait AbsentSource {
+        fn drive_source(&self, _rig: &Rig, _t: Target, _e: Entry, _count: usize) -> Option<Outcome> {
+            None
+        }
+    }
+    impl<T> AbsentSource for &W<T> {}
+}
+
+/// One scripted execution through `&mut S` (boxed = false) or `Box<S>`; false if the library does
+/// not provide that forwarding implementation.
+fn run_one_forwarded(rig: &Rig, t: Target, e: Entry, script: &[Beh], count: usize, boxed: bool) -> bool {
+    #[allow(unused_imports)]
+    use forwarding::{AbsentSink, AbsentSource, ProvidedSink, ProvidedSource, W};
+    rig.reset();
+    let before = rig.linear(t);
+    let ex = expand(script);
+    match e {
+        Entry::ReadUpTo | Entry::ReadExact => {
+            let mut src = SReader { script: ex, pos: 0, consumed: 0, calls: vec![] };
+            let outc = if boxed {
+                let w = W(std::cell::RefCell::new(Box::new(src)));
+                let o = (&w).drive_source(rig, t, e, count);
+                src = *w.0.into_inner();
+                o
+            } else {
+                let w = W(std::cell::RefCell::new(&mut src));
+                (&w).drive_source(rig, t, e, count)
+            };
+            let Some(outc) = outc else { return false };
+            out::eval(1);
+            judge(rig, t, e, script, count, &outc, &src.calls, &before, &[], e == Entry::ReadExact, true);
+        }
+        _ => {
+            let mut dst = SWriter { script: ex, pos: 0, received: vec![], offers: vec![], calls: vec![] };
+            let outc = if boxed {
+                let w = W(std::cell::RefCell::new(Box::new(dst)));
+                let o = (&w).drive_sink(rig, t, e, count);
+                dst = *w.0.into_inner();
+                o
+            } else {
+                let w = W(std::cell::RefCell::new(&mut dst));
+                (&w).drive_sink(rig, t, e, count)
+            };
+            let Some(outc) = outc else { return false };
+            out::eval(1);
+            judge(rig, t, e, script, count, &outc, &dst.calls, &before, &dst.received, e == Entry::WriteAll, false);
+        }
+    }
+    true
+}
+
+fn forwarded_streams(shard: (u64, u64)) {
+    if shard.0 != 0 {
+        return;
+    }
+    let rig = Rig::new();
+    let mut provided = 0u64;
+    for boxed in [false, true] {
+        'kind: for reading in [true, false] {
+            for a in ALPHA.iter() {
+                for b in ALPHA.iter().chain([&Beh::Full]) {
+                    let script = [*a, *b];
+                    for t in [Target::Slice, Target::Region, Target::GuestTwoRegions, Target::GuestEndsInHole] {
+                        for e in if reading { [Entry::ReadUpTo, Entry::ReadExact] } else { [Entry::WriteUpTo, Entry::WriteAll] } {
+                            let (_, run) = rig.geometry(t);
+                            for count in [1usize, run.min(9), run] {
+                                if !run_one_forwarded(&rig, t, e, &script, count, boxed) {
+                                    out::key(&format!("forwarding|{}|{}|not-provided", if boxed { "Box<S>" } else { "&mut S" }, if reading { "source" } else { "sink" }), true);
+                                    continue 'kind;
+                                }
+                                provided += 1;
+                            }
+                        }
+                    }
+                }
+            }
+            out::key(&format!("forwarding|{}|{}|provided", if boxed { "Box<S>" } else { "&mut S" }, if reading { "source" } else { "sink" }), true);
+        }
+    }
+    out::count("forwarded_stream_executions", provided as i128);
+}
+
 fn key(t: Target, e: Entry, script: &[Beh], count: usize, rig: &Rig, outc: &Outcome) {
     let (_, run) = rig.geometry(t);
     let cc = if count == 0 { "0" } else if count < run { "<run" } else if count == run { "=run" } else { ">run" };
@@ -910,6 +1020,7 @@ pub fn run(args: &Args) {
         enumerate(maxlen, args.shard());
     }
     random_scripts(args);
+    forwarded_streams(args.shard());
     if !cfg!(miri) {
         long_runs(args);
         interruption_storms(args);
